@@ -815,3 +815,43 @@ func (p *Prog) PrefixConstants(pkgSuffix string) *PrefixTable {
 	}
 	return t
 }
+
+// GlobalInit returns the value a package-level variable is initialised with when the package
+// initialiser is its only writer (nil otherwise).
+func (p *Prog) GlobalInit(g *ssa.Global) ssa.Value {
+	if g.Pkg == nil {
+		return nil
+	}
+	var initVal ssa.Value
+	writes := 0
+	var visit func(f *ssa.Function)
+	visit = func(f *ssa.Function) {
+		Instrs(f, func(in ssa.Instruction) {
+			if st, ok := in.(*ssa.Store); ok && st.Addr == g {
+				writes++
+				if f.Name() == "init" && f.Synthetic != "" {
+					initVal = st.Val
+				} else {
+					writes += 100
+				}
+			}
+		})
+		for _, an := range f.AnonFuncs {
+			visit(an)
+		}
+	}
+	for _, mem := range g.Pkg.Members {
+		if fn, ok := mem.(*ssa.Function); ok {
+			visit(fn)
+		}
+	}
+	for _, fn := range p.AllFuncs {
+		if fn.Package() == g.Pkg && fn.Signature.Recv() != nil {
+			visit(fn)
+		}
+	}
+	if writes != 1 {
+		return nil
+	}
+	return initVal
+}
